@@ -105,6 +105,18 @@ def check_tuple_rejects(ctx, w: int, f: int, bt):
             ctx.violation(path=f"{cls.__name__}.from_tuple", whole=w, frac=f,
                           observed=show(o),
                           required="OverflowError (never wrapped, clamped or truncated)")
+        # the two words may arrive as NumPy integer scalars (elements of int64 / uint64 arrays are): same integers, same result
+        import numpy as np
+        for TW, TF in ((np.int64, int), (int, np.uint64), (np.int64, np.uint64), (np.int32, np.uint8), (np.int16, int), (int, np.uint32)):
+            if (TW is not int and not (np.iinfo(TW).min <= w <= np.iinfo(TW).max)) or (TF is not int and not (np.iinfo(TF).min <= f <= np.iinfo(TF).max)):
+                continue
+            o2 = outcome(cls.from_tuple, bt.TimeValueTuple(TW(w), TF(f)))
+            same = (o2[0] == o[0]) and ((o[0] == "ok" and o2[1].ticks == o[1].ticks and type(o2[1].ticks) is int) or (o[0] == "err" and o2[1] == o[1]))
+            if not same:
+                ctx.violation(path=f"{cls.__name__}.from_tuple({TW.__name__}, {TF.__name__})", whole=w, frac=f,
+                              observed=show(o2) if o2[0] != "ok" else f"ticks {o2[1].ticks!r}",
+                              required=(f"ticks {o[1].ticks}" if o[0] == "ok" else "OverflowError") + " (the same as for plain ints)")
+                break
 
 
 def check_arrays(ctx, values: list[int], bt):
